@@ -24,6 +24,10 @@ template<class It> size_t remaining(It start, It end, long) { size_t n = 0; for 
 
 struct Scripted
 {
+    // scratch of one request ("longest candidate so far"), valid because the parser answers every request with a lexer object of its own, default constructed
+    // (C15's anchor: parse keeps all state in locals, the custom lexer instance included). A lexer object that lives longer - one per parse, or one per parser -
+    // carries the previous request's candidate into the next one.
+    size_t best_len = 0; int best_term = -1;
     template<typename Iterator, typename ErrorStream>
     constexpr ctpg::recognized_term match(ctpg::match_options, ctpg::source_point sp, Iterator start, Iterator end, ErrorStream&)
     {
@@ -37,7 +41,8 @@ struct Scripted
         if (e.mode == 1) { size_t k = 1; Iterator it = start; ++it; while (k < rem && k < len && *it == first) { ++k; ++it; } len = k; }
         else if (e.mode == 2) { size_t k = 1; Iterator it = start; ++it; while (k < rem && *it == first) { ++k; ++it; } len = k; }
         else if (len > rem) len = rem;
-        return ctpg::recognized_term(ctpg::size16_t(e.term), len);
+        if (best_term < 0 || len > best_len) { best_term = e.term; best_len = len; }
+        return ctpg::recognized_term(ctpg::size16_t(best_term), best_len);
     }
 };
 }
@@ -77,7 +82,7 @@ static CLex ref_lex_custom(const cl::Script& s, const std::string& text, bool ws
 struct P_C18
 {
     using Case = CLCase;
-    static const char* id() { return "C18"; }
+    static const char* id() { return eng::args().prop == "C15x" ? "C15x" : "C18"; }
     static Case gen(Choice& ch)
     {
         Case c;
@@ -363,7 +368,7 @@ int main(int argc, char** argv)
     int rc = 2;
     eng::on_big_stack([&]
     {
-        if (a.prop == "C18") rc = eng::run_property<P_C18>(a);
+        if (a.prop == "C18" || a.prop == "C15x") rc = eng::run_property<P_C18>(a);
         else if (a.prop == "C18t") rc = eng::run_property<P_C18t>(a);
         else { fprintf(stderr, "unknown --prop %s\n", a.prop.c_str()); rc = 2; }
     });
